@@ -47,12 +47,6 @@ RuleClauses(o, r) ==
                     IN  IF want.st # "ok" THEN C("")
                         ELSE IF ~g.ok THEN C("QueryUnreadable")
                         ELSE IF QEquiv(want.e, g.e) THEN C("")
-                        ELSE IF (\E k \in 1..Len(fdocs) : UsName(fdocs[k])) /\
-                                LET m == RuleDen(MechDoc(rule.doc, fdocs, 1), c, FALSE) IN m.st = "ok" /\ QEquiv(m.e, g.e)
-                             THEN D("Dev_FilterUnderscoreNameLosesShield")
-                        ELSE IF UsPattern(rule.doc.conds[c]) /\
-                                LET m == RuleDen(MechDoc(rule.doc, fdocs, 1), c, FALSE) IN m.st = "ok" /\ QEquiv(m.e, g.e)
-                             THEN D("Dev_RuleUnderscorePatternReachesFilter")
                         ELSE IF got[c] = o.plain.out[r][c] THEN C("AppliesIff")
                         ELSE C("MeansRuleAndFilter")], LAMBDA cl : cl.name # "")]
 Clauses(o) == Concat([r \in 1..Len(o.rules) |-> Concat(RuleClauses(o, r))])
